@@ -50,15 +50,16 @@ pub struct Case {
 /// FIRST so that it does not depend on how much of the stream the generators consume.
 pub fn gen_case(c: &mut Choices, allow_mutation: bool) -> Case {
     let n_mut = c.weighted(&[15, 65, 20]);
-    let plan = c.bytes(12);
+    let plan = c.bytes(24);
     let finding_constructs = c.bool(40);
+    let sub_heavy = c.bool(40);
     let sopts = gschema::Opts::default();
     let mut schema_doc = gschema::schema(c, &sopts);
     if c.bool(60) {
         gschema::split_extensions(c, &mut schema_doc);
     }
     let rs = RefSchema::from_document(&schema_doc);
-    let opts = OpOpts { null_in_custom_scalar_list: allow_mutation && finding_constructs, ..OpOpts::default() };
+    let opts = OpOpts { null_in_custom_scalar_list: allow_mutation && finding_constructs, subscription_weight: if sub_heavy { 150 } else { 15 }, ..OpOpts::default() };
     let mut doc = operation::valid_document(c, &rs, &opts);
     let mut mutators = vec![];
     if allow_mutation {
@@ -213,6 +214,30 @@ pub fn aux(args: &[String]) -> i32 {
     let arg = |name: &str| args.iter().position(|a| a == name).and_then(|i| args.get(i + 1)).cloned();
     if args.iter().any(|a| a == "files") {
         return calib_files();
+    }
+    if args.iter().any(|a| a == "find") {
+        // print generated cases whose class label is `--label L|verdict`
+        let want = arg("--label").unwrap_or_default();
+        let n: u64 = arg("--n").and_then(|s| s.parse().ok()).unwrap_or(50000);
+        let show: u64 = arg("--show").and_then(|s| s.parse().ok()).unwrap_or(3);
+        let mut shown = 0;
+        for i in 0..n {
+            let bytes = crate::runner::gen_case(1, "C17", 0, i, 700);
+            let mut c = Choices::new(&bytes);
+            let case = gen_case(&mut c, true);
+            let st = print_document(&case.schema_doc);
+            let dt = print_document(&case.doc);
+            let Ok((v, _)) = reference_verdict(&st, &dt) else { continue };
+            let label = format!("{}|{}", if case.mutators.is_empty() { "none".to_string() } else { case.mutators.join(",") }, v.label());
+            if label == want {
+                println!("==== case {} {} {:?}\n{}{}{}", i, label, v, st, SEP, dt);
+                shown += 1;
+                if shown >= show {
+                    break;
+                }
+            }
+        }
+        return 0;
     }
     let n: u64 = arg("--n").and_then(|s| s.parse().ok()).unwrap_or(20000);
     let seed: u64 = arg("--seed").and_then(|s| s.parse().ok()).unwrap_or(1);
